@@ -114,8 +114,13 @@ Definition dec_hc (n : N) (ns : list (N * gnode)) : list (N * gnode) :=
 Definition ih_pass2_h (g : mgraph) (ns : list (N * gnode)) (h : N) : list (N * gnode) :=
   fold_left (fun ns nb => if is_Hn g nb then ns else dec_hc nb ns) (nbrs g h) ns.
 
-(** third pass: remove_nodes_from(hydrogens that are not preserved) *)
-Definition ih_removed (g : mgraph) (pres : list Z) (n : N) : bool := is_Hn g n && negb (mem n (preserved g pres)).
+(** any(element != "H" for neighbor in neighbors(node)) *)
+Definition has_heavy (g : mgraph) (n : N) : bool := existsb (fun m => negb (is_Hn g m)) (nbrs g n).
+
+(** third pass (as repaired by /repo 3ba7a77): remove_nodes_from(hydrogens that are not preserved AND have a non-hydrogen
+    neighbour); a hydrogen with no such neighbour was folded into nobody's hcount and stays *)
+Definition ih_removed (g : mgraph) (pres : list Z) (n : N) : bool :=
+  is_Hn g n && negb (mem n (preserved g pres)) && has_heavy g n.
 
 Definition implicit_hydrogen (g : mgraph) (pres : list Z) : mgraph :=
   let ns := fold_left (ih_pass2_h g) (preserved g pres) (ih_pass1 g) in
